@@ -18,6 +18,11 @@ import types
 Pickler = pickle._Pickler
 
 
+def _is_strictly_increasing(sequence):
+    """Check that the elements of a sorted sequence are totally ordered."""
+    return all(a < b for a, b in zip(sequence, sequence[1:]))
+
+
 class _ConsistentSet(object):
     """Class used to ensure the hash of Sets is preserved
     whatever the order of its items.
@@ -31,6 +36,11 @@ class _ConsistentSet(object):
             # This fails on python 3 when elements are unorderable
             # but we keep it in a try as it's faster.
             self._sequence = sorted(set_sequence)
+            if not _is_strictly_increasing(self._sequence):
+                # The elements are only partially ordered (e.g. sets, which
+                # are ordered by inclusion): their sorted order depends on
+                # the iteration order of the set.
+                raise TypeError
         except (TypeError, decimal.InvalidOperation):
             # If elements are unorderable, sorting them using their hash.
             # This is slower but works in any case.
@@ -140,7 +150,12 @@ class Hasher(Pickler):
             # consistent and orderable.
             # This fails on python 3 when keys are unorderable
             # but we keep it in a try as it's faster.
-            Pickler._batch_setitems(self, iter(sorted(items)), *args)
+            sorted_items = sorted(items)
+            if not _is_strictly_increasing([k for k, _ in sorted_items]):
+                # The keys are only partially ordered (e.g. frozensets).
+                items = sorted_items
+                raise TypeError
+            Pickler._batch_setitems(self, iter(sorted_items), *args)
         except TypeError:
             # If keys are unorderable, sorting them using their hash. This is
             # slower but works in any case.
